@@ -265,4 +265,411 @@ theorem children_sum (bid : Nat) {e : Nat} {u : Option Nat} {v : Nat}
 
 end Children
 
+/-! ### the recursion -/
+
+/-- accumulator of the two loops of `compute_dfdv`: (lm, post-order, dfdv so far, ok) -/
+abbrev Acc := Array Rat × Array Nat × Rat × Bool
+
+/-- loop body over the `out` constraints -/
+def dOut (st : St) (bid fuel v : Nat) (u : Option Nat) (x : Acc) (ci : Nat) : Acc :=
+  if canFollowRight st bid st.cons[ci]! u = true then
+    ((computeDfdv st bid fuel x.1 x.2.1 st.cons[ci]!.r (some v)).1.set! ci
+        (computeDfdv st bid fuel x.1 x.2.1 st.cons[ci]!.r (some v)).2.2.1,
+      (computeDfdv st bid fuel x.1 x.2.1 st.cons[ci]!.r (some v)).2.1.push ci,
+      x.2.2.1 +
+        (computeDfdv st bid fuel x.1 x.2.1 st.cons[ci]!.r (some v)).2.2.1 * st.vars[st.cons[ci]!.l]!.scale,
+      x.2.2.2 && (computeDfdv st bid fuel x.1 x.2.1 st.cons[ci]!.r (some v)).2.2.2)
+  else (x.1, x.2.1, x.2.2.1, x.2.2.2)
+
+/-- loop body over the `in` constraints -/
+def dIn (st : St) (bid fuel v : Nat) (u : Option Nat) (x : Acc) (ci : Nat) : Acc :=
+  if canFollowLeft st bid st.cons[ci]! u = true then
+    ((computeDfdv st bid fuel x.1 x.2.1 st.cons[ci]!.l (some v)).1.set! ci
+        (-(computeDfdv st bid fuel x.1 x.2.1 st.cons[ci]!.l (some v)).2.2.1),
+      (computeDfdv st bid fuel x.1 x.2.1 st.cons[ci]!.l (some v)).2.1.push ci,
+      x.2.2.1 -
+        -(computeDfdv st bid fuel x.1 x.2.1 st.cons[ci]!.l (some v)).2.2.1 * st.vars[st.cons[ci]!.r]!.scale,
+      x.2.2.2 && (computeDfdv st bid fuel x.1 x.2.1 st.cons[ci]!.l (some v)).2.2.2)
+  else (x.1, x.2.1, x.2.2.1, x.2.2.2)
+
+theorem computeDfdv_succ (st : St) (bid fuel : Nat) (lm : Array Rat) (post : Array Nat) (v : Nat)
+    (u : Option Nat) :
+    computeDfdv st bid (fuel + 1) lm post v u =
+      (((st.vars[v]!).ins.toList.foldl (dIn st bid fuel v u)
+          ((st.vars[v]!).outs.toList.foldl (dOut st bid fuel v u) (lm, post, st.dfdv v, true))).1,
+       ((st.vars[v]!).ins.toList.foldl (dIn st bid fuel v u)
+          ((st.vars[v]!).outs.toList.foldl (dOut st bid fuel v u) (lm, post, st.dfdv v, true))).2.1,
+       ((st.vars[v]!).ins.toList.foldl (dIn st bid fuel v u)
+          ((st.vars[v]!).outs.toList.foldl (dOut st bid fuel v u) (lm, post, st.dfdv v, true))).2.2.1 /
+            (st.vars[v]!).scale,
+       ((st.vars[v]!).ins.toList.foldl (dIn st bid fuel v u)
+          ((st.vars[v]!).outs.toList.foldl (dOut st bid fuel v u) (lm, post, st.dfdv v, true))).2.2.2) := by
+  rw [computeDfdv]
+  simp only [← Array.foldl_toList]
+  rfl
+
+section Rec
+variable {st : St} (hinv : Inv st) (hstat : BlockStationary st)
+  (hs : ∀ i : Nat, (st.vars[i]!).scale ≠ 0)
+
+/-- `lm'` arises from `lm` by overwriting some entries of active constraints with their multiplier -/
+def Keep (st : St) (lm lm' : Array Rat) : Prop :=
+  ∀ j : Nat, lm'[j]! = lm[j]! ∨ ((st.cons[j]!).active = true ∧ lm'[j]! = lamOf st j)
+
+theorem Keep.refl (st : St) (lm : Array Rat) : Keep st lm lm := fun _ => Or.inl rfl
+
+theorem Keep.trans {st : St} {a b c : Array Rat} (h1 : Keep st a b) (h2 : Keep st b c) : Keep st a c := by
+  intro j
+  rcases h2 j with e2 | e2
+  · rcases h1 j with e1 | e1
+    · exact Or.inl (e2.trans e1)
+    · exact Or.inr ⟨e1.1, e2.trans e1.2⟩
+  · exact Or.inr e2
+
+theorem Keep.stay {st : St} {a b : Array Rat} (h : Keep st a b) {j : Nat} (hj : a[j]! = lamOf st j) :
+    b[j]! = lamOf st j := by
+  rcases h j with e | e
+  · exact e.trans hj
+  · exact e.2
+
+/-- the subtree hanging below child constraint `ci` (whose far end is `y`) is finished -/
+def ChildDone (st : St) (ci y : Nat) (lm : Array Rat) : Prop :=
+  lm[ci]! = lamOf st ci ∧
+  ∀ j a b : Nat, AE st.cons j a b → j ≠ ci → ReachAvoid st.cons ci y a → ReachAvoid st.cons ci y b →
+    lm[j]! = lamOf st j
+
+theorem ChildDone.stay {st : St} {ci y : Nat} {a b : Array Rat} (h : ChildDone st ci y a)
+    (hk : Keep st a b) : ChildDone st ci y b :=
+  ⟨hk.stay h.1, fun j a' b' hae hne h1 h2 => hk.stay (h.2 j a' b' hae hne h1 h2)⟩
+
+/-- what a call of the recursion achieves -/
+structure DSpec (st : St) (e v : Nat) (lm lm' : Array Rat) (D : Rat) : Prop where
+  val : D = sideSum st.cons st.vars.size (qOf st) e v
+  size : lm'.size = st.cons.size
+  keep : Keep st lm lm'
+  done : ∀ j a b : Nat, AE st.cons j a b → j ≠ e →
+    ReachAvoid st.cons e v a → ReachAvoid st.cons e v b → lm'[j]! = lamOf st j
+
+theorem fold_ok (f : Acc → Nat → Acc)
+    (okmono : ∀ (acc : Acc) (ci : Nat), (f acc ci).2.2.2 = true → acc.2.2.2 = true) :
+    ∀ (L : List Nat) (acc : Acc), (L.foldl f acc).2.2.2 = true → acc.2.2.2 = true := by
+  intro L
+  induction L with
+  | nil => intro acc h; exact h
+  | cons c L ih => intro acc h; exact okmono acc c (ih _ h)
+
+/-- one loop over a list of constraints, given what a single step does -/
+theorem fold_steps (f : Acc → Nat → Acc) (sv : Rat) (term : Nat → Rat) (follow : Nat → Prop)
+    (far : Nat → Nat) (valid : Nat → Prop)
+    (okmono : ∀ (acc : Acc) (ci : Nat), (f acc ci).2.2.2 = true → acc.2.2.2 = true)
+    (hstep : ∀ (acc : Acc) (ci : Nat), valid ci → acc.1.size = st.cons.size → (f acc ci).2.2.2 = true →
+      (f acc ci).1.size = st.cons.size ∧
+      (f acc ci).2.2.1 = acc.2.2.1 + sv * term ci ∧ Keep st acc.1 (f acc ci).1 ∧
+      (follow ci → ChildDone st ci (far ci) (f acc ci).1)) :
+    ∀ (L : List Nat) (acc : Acc), (∀ ci ∈ L, valid ci) → acc.1.size = st.cons.size →
+      (L.foldl f acc).2.2.2 = true →
+      (L.foldl f acc).1.size = st.cons.size ∧
+      (L.foldl f acc).2.2.1 = acc.2.2.1 + sv * listSum term L ∧ Keep st acc.1 (L.foldl f acc).1 ∧
+      (∀ ci ∈ L, follow ci → ChildDone st ci (far ci) (L.foldl f acc).1) := by
+  intro L
+  induction L with
+  | nil =>
+    intro acc _ hsz _
+    exact ⟨hsz, by simp [listSum], Keep.refl st _, by simp⟩
+  | cons ci L ih =>
+    intro acc hv hsz hok
+    simp only [List.foldl_cons] at hok ⊢
+    have hci := hv ci List.mem_cons_self
+    have hok1 : (f acc ci).2.2.2 = true := fold_ok f okmono L _ hok
+    obtain ⟨hsz1, hd1, hk1, hc1⟩ := hstep acc ci hci hsz hok1
+    obtain ⟨hsz2, hd2, hk2, hc2⟩ :=
+      ih (f acc ci) (fun c hc => hv c (List.mem_cons_of_mem _ hc)) hsz1 hok
+    refine ⟨hsz2, ?_, hk1.trans hk2, ?_⟩
+    · rw [hd2, hd1]; simp only [listSum]; ring
+    · intro c hc hf
+      rcases List.mem_cons.1 hc with rfl | hc
+      · exact (hc1 hf).stay hk2
+      · exact hc2 c hc hf
+
+end Rec
+
+section Main
+variable {st : St} (hinv : Inv st) (hstat : BlockStationary st)
+  (hs : ∀ i : Nat, (st.vars[i]!).scale ≠ 0)
+include hinv
+
+/-- for an active constraint leaving `v`: the recursion follows it iff it is not the parent constraint -/
+theorem follow_right_iff (bid : Nat) {e : Nat} {u : Option Nat} {v j : Nat} (hp : Par st.cons e u v)
+    (hb : blk st.vars v = bid) (hj : j < st.cons.size) (ha : (st.cons[j]!).active = true)
+    (hl : (st.cons[j]!).l = v) :
+    canFollowRight st bid (st.cons[j]!) u = true ↔ j ≠ e := by
+  have hf := forest_of_inv hinv
+  have hae : AE st.cons j v (st.cons[j]!).r := ⟨hj, ha, Or.inl ⟨hl, rfl⟩⟩
+  have hbr : blk st.vars (st.cons[j]!).r = bid := by rw [← (hinv.tight j hj ha).1, hl]; exact hb
+  simp only [canFollowRight, Bool.and_eq_true, beq_iff_eq, bne_iff_ne, ne_eq]
+  rcases hp with ⟨hu, hbig⟩ | ⟨u', hu, hpe⟩
+  · subst hu
+    exact ⟨fun _ => by omega, fun _ => ⟨⟨hbr, ha⟩, by simp⟩⟩
+  · subst hu
+    constructor
+    · rintro ⟨_, hne⟩ hje
+      subst hje
+      rcases ae_ends hpe hae with ⟨_, e2⟩ | ⟨_, e2⟩
+      · rw [e2] at hae
+        exact hf _ _ _ hae ReflTransGen.refl
+      · exact hne (by rw [e2])
+    · intro hje
+      refine ⟨⟨hbr, ha⟩, ?_⟩
+      intro heq
+      have : (st.cons[j]!).r = u' := by simpa using heq.symm
+      rw [this] at hae
+      exact hje (parallel_eq hinv hae hpe)
+
+theorem follow_left_iff (bid : Nat) {e : Nat} {u : Option Nat} {v j : Nat} (hp : Par st.cons e u v)
+    (hb : blk st.vars v = bid) (hj : j < st.cons.size) (ha : (st.cons[j]!).active = true)
+    (hr : (st.cons[j]!).r = v) :
+    canFollowLeft st bid (st.cons[j]!) u = true ↔ j ≠ e := by
+  have hf := forest_of_inv hinv
+  have hae : AE st.cons j v (st.cons[j]!).l := ⟨hj, ha, Or.inr ⟨rfl, hr⟩⟩
+  have hbl : blk st.vars (st.cons[j]!).l = bid := by rw [(hinv.tight j hj ha).1, hr]; exact hb
+  simp only [canFollowLeft, Bool.and_eq_true, beq_iff_eq, bne_iff_ne, ne_eq]
+  rcases hp with ⟨hu, hbig⟩ | ⟨u', hu, hpe⟩
+  · subst hu
+    exact ⟨fun _ => by omega, fun _ => ⟨⟨hbl, ha⟩, by simp⟩⟩
+  · subst hu
+    constructor
+    · rintro ⟨_, hne⟩ hje
+      subst hje
+      rcases ae_ends hpe hae with ⟨_, e2⟩ | ⟨_, e2⟩
+      · rw [e2] at hae
+        exact hf _ _ _ hae ReflTransGen.refl
+      · exact hne (by rw [e2])
+    · intro hje
+      refine ⟨⟨hbl, ha⟩, ?_⟩
+      intro heq
+      have : (st.cons[j]!).l = u' := by simpa using heq.symm
+      rw [this] at hae
+      exact hje (parallel_eq hinv hae hpe)
+
+include hstat hs
+
+/-- **`compute_dfdv` computes the tree multipliers** -/
+theorem dfdv_spec (bid : Nat) : ∀ (fuel : Nat) (lm : Array Rat) (post : Array Nat) (v : Nat)
+    (u : Option Nat) (e : Nat), Par st.cons e u v → v < st.vars.size → blk st.vars v = bid →
+    lm.size = st.cons.size → (computeDfdv st bid fuel lm post v u).2.2.2 = true →
+    DSpec st e v lm (computeDfdv st bid fuel lm post v u).1 (computeDfdv st bid fuel lm post v u).2.2.1 := by
+  intro fuel
+  induction fuel with
+  | zero => intro lm post v u e _ _ _ _ h; simp [computeDfdv] at h
+  | succ fuel ih =>
+    intro lm post v u e hp hv hb hsz hok
+    have hf := forest_of_inv hinv
+    rw [computeDfdv_succ] at hok ⊢
+    simp only at hok ⊢
+    have hsv := hs v
+    -- one step over an `out` constraint
+    have okOut : ∀ (acc : Acc) (ci : Nat), (dOut st bid fuel v u acc ci).2.2.2 = true → acc.2.2.2 = true := by
+      intro acc ci h
+      unfold dOut at h
+      split at h
+      · simp only [Bool.and_eq_true] at h; exact h.1
+      · exact h
+    have okIn : ∀ (acc : Acc) (ci : Nat), (dIn st bid fuel v u acc ci).2.2.2 = true → acc.2.2.2 = true := by
+      intro acc ci h
+      unfold dIn at h
+      split at h
+      · simp only [Bool.and_eq_true] at h; exact h.1
+      · exact h
+    have stepOut : ∀ (acc : Acc) (ci : Nat), (ci < st.cons.size ∧ (st.cons[ci]!).l = v) →
+        acc.1.size = st.cons.size → (dOut st bid fuel v u acc ci).2.2.2 = true →
+        (dOut st bid fuel v u acc ci).1.size = st.cons.size ∧
+        (dOut st bid fuel v u acc ci).2.2.1 = acc.2.2.1 + (st.vars[v]!).scale *
+          (if canFollowRight st bid (st.cons[ci]!) u = true
+            then beyondSum st.cons st.vars.size (qOf st) v ci else 0) ∧
+        Keep st acc.1 (dOut st bid fuel v u acc ci).1 ∧
+        (canFollowRight st bid (st.cons[ci]!) u = true →
+          ChildDone st ci (st.cons[ci]!).r (dOut st bid fuel v u acc ci).1) := by
+      intro acc ci ⟨hci, hl⟩ hasz hokc
+      unfold dOut at hokc ⊢
+      by_cases hcf : canFollowRight st bid (st.cons[ci]!) u = true
+      · rw [if_pos hcf] at hokc ⊢
+        simp only [Bool.and_eq_true] at hokc
+        have hact : (st.cons[ci]!).active = true := by
+          simp only [canFollowRight, Bool.and_eq_true] at hcf; exact hcf.1.2
+        have hbr : blk st.vars (st.cons[ci]!).r = bid := by
+          simp only [canFollowRight, Bool.and_eq_true, beq_iff_eq] at hcf; exact hcf.1.1
+        have hae : AE st.cons ci v (st.cons[ci]!).r := ⟨hci, hact, Or.inl ⟨hl, rfl⟩⟩
+        have sp := ih acc.1 acc.2.1 (st.cons[ci]!).r (some v) ci (Or.inr ⟨v, rfl, hae⟩)
+          (hinv.r_lt ci hci) hbr hasz hokc.2
+        have hlam : lamOf st ci = (computeDfdv st bid fuel acc.1 acc.2.1 (st.cons[ci]!).r (some v)).2.2.1 := by
+          unfold lamOf mult; rw [if_pos hact, sp.val]
+        have hcisz : ci < (computeDfdv st bid fuel acc.1 acc.2.1 (st.cons[ci]!).r (some v)).1.size := by
+          rw [sp.size]; exact hci
+        have hget : ∀ j : Nat, ((computeDfdv st bid fuel acc.1 acc.2.1 (st.cons[ci]!).r (some v)).1.set! ci
+            (computeDfdv st bid fuel acc.1 acc.2.1 (st.cons[ci]!).r (some v)).2.2.1)[j]! =
+            if ci = j then (computeDfdv st bid fuel acc.1 acc.2.1 (st.cons[ci]!).r (some v)).2.2.1
+            else (computeDfdv st bid fuel acc.1 acc.2.1 (st.cons[ci]!).r (some v)).1[j]! := by
+          intro j
+          rw [AdaptaVerif.Lemmas.VpscHistory.get!_set!]
+          by_cases hcj : ci = j
+          · subst hcj; simp [hcisz]
+          · simp [hcj]
+        refine ⟨by simp only [Array.set!_eq_setIfInBounds, Array.size_setIfInBounds]; exact sp.size, ?_, ?_, ?_⟩
+        · rw [if_pos hcf]
+          have : beyondSum st.cons st.vars.size (qOf st) v ci =
+              sideSum st.cons st.vars.size (qOf st) ci (st.cons[ci]!).r := by
+            unfold beyondSum sideSum
+            apply sumTo_congr
+            intro x _
+            rw [if_congr (beyond_iff_of_ae hinv hae x) rfl rfl]
+          rw [this, ← sp.val, hl]; ring
+        · intro j
+          rw [hget j]
+          by_cases hcj : ci = j
+          · subst hcj
+            rw [if_pos rfl]
+            exact Or.inr ⟨hact, hlam.symm⟩
+          · rw [if_neg hcj]
+            exact sp.keep j
+        · intro _
+          refine ⟨by rw [hget ci, if_pos rfl]; exact hlam.symm, ?_⟩
+          intro j a b haej hjc h1 h2
+          rw [hget j, if_neg (fun e => hjc e.symm)]
+          exact sp.done j a b haej hjc h1 h2
+      · rw [if_neg hcf] at hokc ⊢
+        exact ⟨hasz, by rw [if_neg hcf]; ring, Keep.refl st _, fun hh => absurd hh hcf⟩
+    have stepIn : ∀ (acc : Acc) (ci : Nat), (ci < st.cons.size ∧ (st.cons[ci]!).r = v) →
+        acc.1.size = st.cons.size → (dIn st bid fuel v u acc ci).2.2.2 = true →
+        (dIn st bid fuel v u acc ci).1.size = st.cons.size ∧
+        (dIn st bid fuel v u acc ci).2.2.1 = acc.2.2.1 + (st.vars[v]!).scale *
+          (if canFollowLeft st bid (st.cons[ci]!) u = true
+            then beyondSum st.cons st.vars.size (qOf st) v ci else 0) ∧
+        Keep st acc.1 (dIn st bid fuel v u acc ci).1 ∧
+        (canFollowLeft st bid (st.cons[ci]!) u = true →
+          ChildDone st ci (st.cons[ci]!).l (dIn st bid fuel v u acc ci).1) := by
+      intro acc ci ⟨hci, hr⟩ hasz hokc
+      unfold dIn at hokc ⊢
+      by_cases hcf : canFollowLeft st bid (st.cons[ci]!) u = true
+      · rw [if_pos hcf] at hokc ⊢
+        simp only [Bool.and_eq_true] at hokc
+        have hact : (st.cons[ci]!).active = true := by
+          simp only [canFollowLeft, Bool.and_eq_true] at hcf; exact hcf.1.2
+        have hbl : blk st.vars (st.cons[ci]!).l = bid := by
+          simp only [canFollowLeft, Bool.and_eq_true, beq_iff_eq] at hcf; exact hcf.1.1
+        have hae : AE st.cons ci v (st.cons[ci]!).l := ⟨hci, hact, Or.inr ⟨rfl, hr⟩⟩
+        have sp := ih acc.1 acc.2.1 (st.cons[ci]!).l (some v) ci (Or.inr ⟨v, rfl, hae⟩)
+          (hinv.l_lt ci hci) hbl hasz hokc.2
+        have hadd := sideSum_add hinv (qOf st) ci hci hact
+        rw [hstat] at hadd
+        have hlam : lamOf st ci = -(computeDfdv st bid fuel acc.1 acc.2.1 (st.cons[ci]!).l (some v)).2.2.1 := by
+          unfold lamOf mult; rw [if_pos hact, sp.val]; linarith
+        have hcisz : ci < (computeDfdv st bid fuel acc.1 acc.2.1 (st.cons[ci]!).l (some v)).1.size := by
+          rw [sp.size]; exact hci
+        have hget : ∀ j : Nat, ((computeDfdv st bid fuel acc.1 acc.2.1 (st.cons[ci]!).l (some v)).1.set! ci
+            (-(computeDfdv st bid fuel acc.1 acc.2.1 (st.cons[ci]!).l (some v)).2.2.1))[j]! =
+            if ci = j then -(computeDfdv st bid fuel acc.1 acc.2.1 (st.cons[ci]!).l (some v)).2.2.1
+            else (computeDfdv st bid fuel acc.1 acc.2.1 (st.cons[ci]!).l (some v)).1[j]! := by
+          intro j
+          rw [AdaptaVerif.Lemmas.VpscHistory.get!_set!]
+          by_cases hcj : ci = j
+          · subst hcj; simp [hcisz]
+          · simp [hcj]
+        refine ⟨by simp only [Array.set!_eq_setIfInBounds, Array.size_setIfInBounds]; exact sp.size, ?_, ?_, ?_⟩
+        · rw [if_pos hcf]
+          have : beyondSum st.cons st.vars.size (qOf st) v ci =
+              sideSum st.cons st.vars.size (qOf st) ci (st.cons[ci]!).l := by
+            unfold beyondSum sideSum
+            apply sumTo_congr
+            intro x _
+            rw [if_congr (beyond_iff_of_ae hinv hae x) rfl rfl]
+          rw [this, ← sp.val, hr]; ring
+        · intro j
+          rw [hget j]
+          by_cases hcj : ci = j
+          · subst hcj
+            rw [if_pos rfl]
+            exact Or.inr ⟨hact, hlam.symm⟩
+          · rw [if_neg hcj]
+            exact sp.keep j
+        · intro _
+          refine ⟨by rw [hget ci, if_pos rfl]; exact hlam.symm, ?_⟩
+          intro j a b haej hjc h1 h2
+          rw [hget j, if_neg (fun e => hjc e.symm)]
+          exact sp.done j a b haej hjc h1 h2
+      · rw [if_neg hcf] at hokc ⊢
+        exact ⟨hasz, by rw [if_neg hcf]; ring, Keep.refl st _, fun hh => absurd hh hcf⟩
+    -- the two loops
+    have hokOut := fold_ok _ okIn (st.vars[v]!).ins.toList _ hok
+    obtain ⟨o1, o2, o3, o4⟩ := fold_steps (dOut st bid fuel v u) (st.vars[v]!).scale _ _
+      (fun ci => (st.cons[ci]!).r) (fun ci => ci < st.cons.size ∧ (st.cons[ci]!).l = v) okOut stepOut
+      (st.vars[v]!).outs.toList (lm, post, st.dfdv v, true)
+      (fun ci hci => hinv.outs_sound v ci (by simpa using hci)) hsz hokOut
+    obtain ⟨i1, i2, i3, i4⟩ := fold_steps (dIn st bid fuel v u) (st.vars[v]!).scale _ _
+      (fun ci => (st.cons[ci]!).l) (fun ci => ci < st.cons.size ∧ (st.cons[ci]!).r = v) okIn stepIn
+      (st.vars[v]!).ins.toList _
+      (fun ci hci => hinv.ins_sound v ci (by simpa using hci)) o1 hok
+    generalize hA1 : (st.vars[v]!).outs.toList.foldl (dOut st bid fuel v u) (lm, post, st.dfdv v, true) = A1
+      at o1 o2 o3 o4 i1 i2 i3 i4 hok hokOut ⊢
+    generalize hA2 : (st.vars[v]!).ins.toList.foldl (dIn st bid fuel v u) A1 = A2 at i1 i2 i3 i4 hok ⊢
+    refine ⟨?_, i1, o3.trans i3, ?_⟩
+    · -- the value
+      rw [i2, o2]
+      simp only
+      rw [side_decomp hinv (qOf st) hp hv, ← children_sum hinv bid hp hv hb (qOf st)]
+      simp only [qOf]
+      field_simp
+      ring
+    · -- every constraint inside the subtree has been assigned
+      intro j a b haej hje ha hb'
+      -- a constraint incident to v
+      have incident : ∀ y, AE st.cons j v y → A2.1[j]! = lamOf st j := by
+        intro y hvy
+        obtain ⟨hj, hact, hends⟩ := hvy
+        rcases hends with ⟨hl, _⟩ | ⟨_, hr⟩
+        · have hfol := (follow_right_iff hinv bid hp hb hj hact hl).2 hje
+          have hmem : j ∈ (st.vars[v]!).outs.toList := by
+            have := hinv.outs_complete j hj; rw [hl] at this; simpa using this
+          exact i3.stay (o4 j hmem hfol).1
+        · have hfol := (follow_left_iff hinv bid hp hb hj hact hr).2 hje
+          have hmem : j ∈ (st.vars[v]!).ins.toList := by
+            have := hinv.ins_complete j hj; rw [hr] at this; simpa using this
+          exact (i4 j hmem hfol).1
+      by_cases hav : a = v
+      · subst hav; exact incident b haej
+      · by_cases hbv : b = v
+        · subst hbv; exact incident a haej.symm
+        · -- both ends lie beyond the same child constraint
+          have ha_lt : a < st.vars.size := by
+            obtain ⟨hj, _, hends⟩ := haej
+            rcases hends with ⟨rfl, _⟩ | ⟨_, rfl⟩
+            · exact hinv.l_lt j hj
+            · exact hinv.r_lt j hj
+          obtain ⟨j0, hj0, ⟨y0, hae0, hy0⟩, _⟩ :=
+            beyond_unique hinv v a hv ha_lt ((hinv.reach_blk ha).symm) hav
+          have hj0e : j0 ≠ e := by
+            rintro rfl
+            exact hf _ _ _ hae0 (ha.trans hy0.symm)
+          have hjj0 : j ≠ j0 := by
+            rintro rfl
+            rcases ae_ends haej hae0 with ⟨e1, _⟩ | ⟨e1, _⟩
+            · exact hav e1.symm
+            · exact hbv e1.symm
+          have hy0b : ReachAvoid st.cons j0 y0 b := hy0.tail ⟨j, hjj0, haej⟩
+          obtain ⟨_, hact0, hends0⟩ := hae0
+          rcases hends0 with ⟨hl, hr⟩ | ⟨hl, hr⟩
+          · have hfol := (follow_right_iff hinv bid hp hb hj0 hact0 hl).2 hj0e
+            have hmem : j0 ∈ (st.vars[v]!).outs.toList := by
+              have := hinv.outs_complete j0 hj0; rw [hl] at this; simpa using this
+            have cd := (o4 j0 hmem hfol).stay i3
+            rw [hr] at cd
+            exact cd.2 j a b haej hjj0 hy0 hy0b
+          · have hfol := (follow_left_iff hinv bid hp hb hj0 hact0 hr).2 hj0e
+            have hmem : j0 ∈ (st.vars[v]!).ins.toList := by
+              have := hinv.ins_complete j0 hj0; rw [hr] at this; simpa using this
+            have cd := i4 j0 hmem hfol
+            rw [hl] at cd
+            exact cd.2 j a b haej hjj0 hy0 hy0b
+
+end Main
+
 end AdaptaVerif.Lemmas.VpscKktDfdv
